@@ -99,6 +99,39 @@ def r_index_arg(ctx):
     ctx.floor(rule, 'index hand-overs (u16 arguments, handle aggregates)', n, 11)
 
 
+def worklist_keys_ok(f, t):
+    """`t` is an element taken out of a local Vec (pop / remove / swap_remove / iteration) whose every element was built by
+    a Key constructor (initial `vec![..]` content and every push)"""
+    t0 = strip(t)
+    src = None
+    for s in walk(t0):
+        if s[0] == 'call' and s[1].endswith(('Vec::<T, A>::pop', 'Vec::<T, A>::remove', 'Vec::<T, A>::swap_remove', 'VecDeque::<T, A>::pop_front', 'VecDeque::<T, A>::pop_back')) and s[2]:
+            src = strip(s[2][0])
+            break
+    if src is None or src[0] != 'call' or not isinstance(src[3], int):
+        return False
+    elems = []
+    if src[1].endswith('box_assume_init_into_vec_unsafe'):
+        blk = f.blocks[src[3]]
+        found = False
+        for si, st in enumerate(blk['stmts']):
+            if st['rv']['k'] == 'agg' and st['rv'].get('agg') == 'array' and st['place']['p'] and st['place']['p'][0]['k'] == 'deref':
+                arr = f._def_term(('assign', src[3], si, st['rv'], []), 0, frozenset())
+                elems += list(strip(arr)[1]) if strip(arr)[0] == 'array' else [arr]
+                found = True
+        if not found:
+            return False
+    elif not src[1].endswith(('Vec::<T>::new', 'Vec::<T>::with_capacity', 'VecDeque::<T>::new', 'Default::default')):
+        return False
+    for x in f.calls():
+        if x.args and strip(x.arg_term(0))[0] == 'call' and strip(x.arg_term(0))[3] == src[3] and x.bb != src[3]:
+            if x.callee.endswith(('::push', '::push_back', '::push_front', '::insert')):
+                elems.append(x.arg_term(len(x.args) - 1))
+            elif x.callee.endswith(('::extend', '::append', '::extend_from_slice', '::resize')):
+                return False
+    return bool(elems) and all(key_info(e) is not None for e in elems)
+
+
 def r_index_op(ctx):
     F = ctx.F
     rule = 'R-INDEX-OP'
@@ -123,6 +156,8 @@ def r_index_op(ctx):
             ctx.ok(rule, key, c.loc(), 'key built by %s' % ki[0])
         elif f.path.startswith('upgrade::cosine_from_0_4_to_0_5') and root(t)[0] == 'var' and root(t)[2] == 'key':
             ctx.ok(rule, key, c.loc(), 'upgrade: key read from the source database, only its kind/id rewritten')
+        elif worklist_keys_ok(f, t):
+            ctx.ok(rule, key, c.loc(), 'key popped from a work list that only ever receives constructor-built keys')
         else:
             ctx.bad(rule, key, c.loc(), 'key of `%s` in `%s` is not built by a Key/Prefix constructor: %s' % (op, f.path, show(t)))
     for f, c, op in cursor_ops(F):
